@@ -624,7 +624,8 @@ pub fn process<I: BufRead, O: Write>(
                     if caps.get(2).is_none() {
                         context.define(mcro, value);
                     } else {
-                        let mut rex = format!("\\b{}\\(", mcro);
+                        // The name of a function-like macro may be followed by blanks before '('
+                        let mut rex = format!("\\b{}[ \\t]*\\(", mcro);
                         let params = caps.get(2).unwrap().as_str();
                         if !params.is_empty() {
                             let names: Vec<&str> = params.split(',').map(|v| v.trim()).collect();
@@ -650,6 +651,9 @@ pub fn process<I: BufRead, O: Write>(
                             }
                             // Double hash management
                             rex = rex.strip_suffix(',').unwrap().to_string();
+                        } else {
+                            // No argument: blanks may stand between the parentheses
+                            rex += "[ \\t]*";
                         }
                         rex += "\\)";
                         // The pattern may be refused (a parameter name that is no identifier,
